@@ -41,6 +41,16 @@ theorem C10_tie_avs_reads :
        ("GetAVSParamsFromUpdateInputs.CallerAddress", "args[0]"), ("GetTaskParamsFromInputs.CallerAddress", "args[0]")] ∧
     avsOriginIgnored = true := by decide
 
+/-- which owner list each AVS owner check consults: registration compares two *arguments* (`admitRegisterAVS`),
+update / deregistration / task creation consult the **stored** AvsOwnerAddress of the caller-AVS
+(`admitManageAVS`); an update that looked into the payload's list instead would let a non-owner take the AVS over -/
+theorem C10_tie_avs_owner_lists :
+    avsOwnerCheckReads =
+      [("Precompile.RegisterAVS", "avsParams.AvsOwnerAddress contains avsParams.CallerAddress"),
+       ("Precompile.UpdateAVS", "previousAVSInfo.Info.AvsOwnerAddress contains avsParams.CallerAddress"),
+       ("Keeper.UpdateAVSInfo", "avsInfo.Info.AvsOwnerAddress contains params.CallerAddress"),
+       ("Keeper.CreateAVSTask", "avsInfo.AvsOwnerAddress contains params.CallerAddress")] := by decide
+
 /-- oracle branch of SigVerificationDecorator: `VerifySignature` is no longer a statement of its own; it
 stands in the condition of an `if` whose body returns an error (`admitOraclePrice` requires `sig = valid`).
 Re-introducing F-10a (dropping the result, or dropping the call) flips one of the two literals. -/
